@@ -82,3 +82,11 @@ package spy
 //@       invariant [self] s != nil
 //@       iter-ensures [taken-means-published-once] v != nil ==> ghostCount("spy.Publish") == old(ghostCount("spy.Publish")) + 1
 //@   end-closure
+
+// Subscription ids are table keys: two live subscriptions must never share one. That they do
+// not is a statistical fact about random UUIDs (122 random bits), not a theorem: the helper is
+// pinned to handing out a full random UUID in its canonical text form.
+//@ func subscriptionId() (id string)
+//@   props C20
+//@   calls-only github.com/google/uuid: New, String
+//@   at [return uuid.New().String()]: assert [a-full-random-uuid] true
